@@ -216,6 +216,8 @@ pub fn issuance(rng: &mut R, re: bool) -> AssetIssuance {
 pub fn txin(rng: &mut R, kind: InKind, with_witness: bool) -> TxIn {
     let prevout = match kind {
         InKind::Coinbase => OutPoint::default(),
+        // a plain input may carry the all-ones index with a non-null txid: canonical (no flags), not a coinbase
+        InKind::Plain if rng.gen_bool(0.06) => OutPoint::new(Txid::from_byte_array(arr32(rng)), 0xffff_ffff),
         _ => OutPoint::new(Txid::from_byte_array(arr32(rng)), match rng.gen_range(0..5) { 0 => 0, 1 => (1 << 30) - 1, 2 => rng.gen_range(0..4), _ => rng.gen_range(0..(1u32 << 30)) }),
     };
     let is_pegin = matches!(kind, InKind::Pegin | InKind::PeginIssuance);
